@@ -482,3 +482,8 @@ func (s *Sim) TaskAction(t *Task) Action {
 
 // MarkRoot records the calling goroutine as the scheduler goroutine.
 func (s *Sim) MarkRoot() { s.rootGid = goid() }
+
+// Note folds a label into the trace and schedule hashes without taking a
+// decision (used to make the case part of the explored-interleaving measure
+// in scenarios whose diversity lies in scripts rather than schedules).
+func (s *Sim) Note(label string) { s.record(label, label) }
